@@ -152,13 +152,14 @@ fn nesting_exceeds(buf: &[u8], limit: usize) -> bool {
             let kind = *buf.get(p)?;
             p += 1;
             let end_of_value = match kind {
+                // (the type codes as the parser reads them, which is RabbitMQ's reading:
+                // 's' is a 16-bit integer, not the specification's short string)
                 b't' | b'b' | b'B' => p + 1,
-                b'U' | b'u' => p + 2,
+                b'U' | b'u' | b's' => p + 2,
                 b'I' | b'i' | b'f' => p + 4,
                 b'L' | b'l' | b'd' | b'T' => p + 8,
                 b'D' => p + 5,
                 b'V' => p,
-                b's' => p + 1 + usize::from(*buf.get(p)?),
                 b'S' | b'x' => p + 4 + long_at(buf, p)?,
                 b'A' | b'F' => {
                     let inner_end = p + 4 + long_at(buf, p)?;
